@@ -316,7 +316,9 @@ class CircuitSimulator:
         """
         # Initializing the unitary operators.
         if cbits and len(cbits) == self.qc.num_cbits:
-            self.cbits = cbits
+            # Work on a copy: the caller's list must not be modified and
+            # each run (e.g. each branch in run_statistics) needs its own.
+            self.cbits = list(cbits)
         elif self.qc.num_cbits > 0:
             self.cbits = [0] * self.qc.num_cbits
         else:
